@@ -121,6 +121,10 @@ TraceNext ==
           /\ Replace(e.name, e.op)
           /\ verdict' = Worse(verdict, IF e.snap # store' THEN Drift("store_as_spec") ELSE Ok)
           /\ obs' = ObsOf(e) /\ n' = n + 1 /\ UNCHANGED << seenG, seenT >>
+       \/ /\ e.ev = "Reinsert"
+          /\ Reinsert(e.name)
+          /\ verdict' = Worse(verdict, IF e.snap # store' THEN Drift("store_as_spec") ELSE Ok)
+          /\ obs' = ObsOf(e) /\ n' = n + 1 /\ UNCHANGED << seenG, seenT >>
        \/ /\ e.ev = "SetMaxTime"
           /\ SetMaxTime(e.c)
           /\ obs' = ObsOf(e) /\ n' = n + 1 /\ UNCHANGED << verdict, seenG, seenT >>
